@@ -151,6 +151,26 @@ def run(ctx):
                             if cc.name in relay_calls or cc.target.endswith("spawn::spawn"):
                                 bad.append(cc.name)
                     ctx.ob("D3", fb.root, f"{c.method}-failure-drops-inbound", loc(t["sp"]), not bad, "failure edge reaches the function end without relaying" if not bad else f"failure edge still reaches {sorted(set(bad))}")
+    # ---------------- D10 a dead link is noticed: the transport's idle timer is not switched off ------------------------------------
+    # over QUIC nothing but the idle timer tells a relay that the link has silently died (no FIN, no RST reaches it). QUIC uses the smaller of the
+    # two ends' values, so disabling it is harmless at one end alone and fatal when both do it: the flow's task, its socket to the target and
+    # the application's socket stay for ever. `max_idle_timeout(None)` is therefore refused wherever it appears.
+    n_idle = 0
+    for b in bodies:
+        for (blk, c, t) in b.calls():
+            if c.method == "max_idle_timeout" and "TransportConfig" in ((c.self_s or "") + c.target):
+                n_idle += 1
+                off = False
+                q = op_place(t["args"][1]) if len(t["args"]) > 1 else None
+                if q is not None:
+                    for d in b.defs().get(q[0], []):
+                        if d[0] == "assign" and d[3]["rv"]["k"] == "agg" and d[3]["rv"].get("variant") == "None":
+                            off = True
+                ctx.ob("D10", b.defp, "idle-timeout-not-disabled", loc(t["sp"]), not off,
+                       "the QUIC idle timeout is set to a value" if not off else
+                       "`max_idle_timeout(None)` switches the QUIC idle timer off: a link that dies silently (no close reaches this end) is never declared dead, so the flow's "
+                       "task and both of its sockets are never released (QUIC takes the minimum of both ends, so this shows only once the peer disables it as well)")
+    ctx.ob("D10", "workspace", "scan", "-", True, f"{n_idle} max_idle_timeout call(s)", nontrivial=False, ordinal=False)
     # ---------------- D9 what was received with the request is delivered unless the dial failed --------------------------------------
     # the first item of a stream flow carries payload that has already been received from the client. From the arm that binds it, every
     # way out of the handler either runs the relay (which is handed that payload as its first item) or lies behind the failure edge of the
